@@ -85,11 +85,11 @@ theorem C07_construct (user : Option Nat) (alloc capacity : Nat) (halloc : user 
   construct_spec user alloc capacity halloc hb
 
 /-- A buffer that is too small — counting the bytes a caller's buffer loses to alignment — leaves the
-framer without a buffer, and such a framer ignores all data. -/
+framer without a buffer, and such a framer ignores all data (as long as no `SetBuffer` gives it one). -/
 theorem C07_no_buffer (user : Option Nat) (alloc capacity : Nat)
-    (hb : (Framer.construct user alloc capacity).hasBuf = false) (ops : List Op) :
+    (hb : (Framer.construct user alloc capacity).hasBuf = false) (ops : List Op) (hops : ∀ op ∈ ops, op.keepsBuffer) :
     runOps (Framer.construct user alloc capacity) ops = Framer.empty :=
-  no_buffer user alloc capacity hb ops
+  no_buffer user alloc capacity hb ops hops
 
 /-- A caller buffer is accepted exactly when it still holds a header after alignment. -/
 theorem C07_buffer_accepted_iff (a alloc capacity : Nat) :
@@ -104,38 +104,17 @@ theorem C07_buffer_accepted_iff (a alloc capacity : Nat) :
 
 /-- **Every buffer index the framer ever reads or writes is below `capacity_bytes_`** (`hi` is
 1 + the highest index of `buffer_` accessed by `OnData`, `OnByte`, `Resync`, `memmove`, `CalculateCRC`, or handed
-to a callback), `next_byte_index_` stays inside the buffer, and the buffer keeps its size — in every
-reachable state. -/
+to a callback; counted from the last accepted `SetBuffer`, i.e. in the buffer now in use), `next_byte_index_` stays
+inside the buffer, and the buffer keeps its size — in every reachable state: after construction with either kind of
+buffer and any history of `OnData`, `Reset()` and `SetBuffer()` calls (either kind, any address, any capacity,
+at any point of a message). -/
 theorem C07_framer_safe (f : Framer) (h : Reachable f) :
     f.hi ≤ f.cap ∧ f.next ≤ f.cap ∧ f.buf.length = f.cap ∧ (f.hasBuf = true → HDR ≤ f.cap) := by
-  by_cases hb : f.hasBuf = true
-  · obtain ⟨p, hr, _⟩ := reachable_rel h hb
-    have := pend_lt_cap hr.pend hr.core.cap24
-    exact ⟨hr.core.hi, by rw [hr.next]; omega, hr.core.len, fun _ => hr.core.cap24⟩
-  · obtain ⟨user, alloc, capacity, ops, _, hf⟩ := h
-    have hc : (Framer.construct user alloc capacity).hasBuf = false := by
-      cases hh : (Framer.construct user alloc capacity).hasBuf with
-      | false => rfl
-      | true =>
-        exfalso; apply hb; rw [hf]
-        have : ∀ (ops : List Op) (g : Framer), (runOps g ops).hasBuf = g.hasBuf := by
-          intro ops
-          induction ops with
-          | nil => intro g; rfl
-          | cons op ops ih =>
-            intro g; unfold runOps; rw [List.foldl_cons]
-            show (runOps (applyOp g op) ops).hasBuf = _
-            rw [ih]
-            cases op with
-            | data d =>
-              show (onData g d).f.hasBuf = _
-              unfold onData; split
-              · exact onDataLoop_hasBuf d g
-              · rfl
-            | reset => rfl
-        rw [this, hh]
-    rw [hf, no_buffer user alloc capacity hc ops]
+  rcases reachable_inv h with ⟨_, he⟩ | ⟨p, hr, _⟩
+  · rw [he]
     exact ⟨Nat.le_refl _, Nat.le_refl _, rfl, fun h => by cases h⟩
+  · have := pend_lt_cap hr.pend hr.core.cap24
+    exact ⟨hr.core.hi, by rw [hr.next]; omega, hr.core.len, fun _ => hr.core.cap24⟩
 
 /-! ### Return value, alignment -/
 
@@ -182,6 +161,62 @@ theorem C07_construct_fresh (user : Option Nat) (alloc capacity : Nat) (halloc :
     (hb : (Framer.construct user alloc capacity).hasBuf = true) : Fresh (Framer.construct user alloc capacity) := by
   have h0 := C07_construct user alloc capacity halloc hb
   exact ⟨hb, h0.1, h0.2.1, by rw [h0.2.2.2.2.2.1]; exact Nat.zero_le _, h0.2.2.2.1, h0.2.2.2.2.1⟩
+
+/-! ### Replacing the buffer (`SetBuffer` on a live object) -/
+
+/-- A `SetBuffer` call whose capacity does not hold a header behind the alignment loss is refused and
+leaves the object exactly as it was (buffer, pending bytes, state). -/
+theorem C07_setBuffer_refused (f : Framer) (user : Option Nat) (alloc capacity : Nat)
+    (hc : capacity < HDR + slackOf user) : f.setBuffer user alloc capacity = f :=
+  setBuffer_refused f user alloc capacity hc
+
+/-- An accepted `SetBuffer` call yields an object that does not depend on the previous one: nothing of the
+old buffer, of the bytes pending in it, or of `state_` / `next_byte_index_` / `current_message_size_` survives. -/
+theorem C07_setBuffer_discards (f g : Framer) (user : Option Nat) (alloc capacity : Nat)
+    (hc : HDR + slackOf user ≤ capacity) :
+    f.setBuffer user alloc capacity = g.setBuffer user alloc capacity :=
+  setBuffer_independent f g user alloc capacity hc
+
+/-- ... and that object is in the reset state with `capacity_bytes_` = what is left of the storage behind the
+first aligned address, an aligned buffer inside the storage given, nothing touched. -/
+theorem C07_setBuffer_fresh (f : Framer) (user : Option Nat) (alloc capacity : Nat)
+    (halloc : user = none → alloc % 4 = 0) (hc : HDR + slackOf user ≤ capacity) :
+    let g := f.setBuffer user alloc capacity
+    Fresh g ∧ g.cur = 0 ∧ g.hi = 0 ∧ g.addr % 4 = 0 ∧ g.cap = min capacity 0x7FFFFFFF - slackOf user ∧
+    (match user with
+      | some a => a ≤ g.addr ∧ g.addr + g.cap ≤ a + capacity
+      | none => alloc ≤ g.addr ∧ g.addr + g.cap ≤ alloc + capacity) := by
+  intro g
+  have h := setBuffer_spec f user alloc capacity halloc hc
+  exact ⟨setBuffer_fresh f user alloc capacity halloc hc, h.2.2.2.2.2.2.1, h.2.2.2.2.2.2.2.1, h.2.2.2.1,
+    h.2.2.2.2.2.2.2.2.1, h.2.2.2.2.2.2.2.2.2.2⟩
+
+/-- **After an accepted `SetBuffer` — applied to any object whatsoever, in the middle of a header or of a
+payload, from either kind of buffer to either kind, with a capacity below, at or above the number of bytes
+pending — the framer dispatches exactly the messages the scan with the new capacity accepts in the bytes that
+follow**: `SetBuffer` is one more segment boundary, with a change of capacity. -/
+theorem C07_refines_scan_after_setBuffer (f : Framer) (user : Option Nat) (alloc capacity : Nat)
+    (halloc : user = none → alloc % 4 = 0) (hc : HDR + slackOf user ≤ capacity) (chunks : List Bytes) :
+    (onDataCalls (f.setBuffer user alloc capacity) chunks).2.2 =
+      msgBytes chunks.flatten 0
+        ((cfgCxx (min capacity 0x7FFFFFFF - slackOf user)).run chunks.flatten 0).msgs ∧
+    (onDataCalls (f.setBuffer user alloc capacity) chunks).2.1.sum =
+      sumLen (msgBytes chunks.flatten 0
+        ((cfgCxx (min capacity 0x7FFFFFFF - slackOf user)).run chunks.flatten 0).msgs) := by
+  have h := C07_refines_scan _ (setBuffer_fresh f user alloc capacity halloc hc) chunks
+  rw [(setBuffer_spec f user alloc capacity halloc hc).2.2.2.2.2.2.2.2.1] at h
+  exact h
+
+/-- **Whole histories.**  For an object constructed with either kind of buffer and any sequence of `OnData`,
+`Reset()` and `SetBuffer()` calls, the callbacks are, in order, the messages of the specification `specCbs`:
+the stream is cut at every `Reset()` and at every accepted `SetBuffer()` (a refused one cuts nothing), and each
+segment is scanned on its own with the capacity in force — the bytes pending at a cut are discarded, the bytes
+after it are framed from scratch. -/
+theorem C07_history (user : Option Nat) (alloc capacity : Nat) (halloc : user = none → alloc % 4 = 0)
+    (ops : List Op) (hok : ∀ op ∈ ops, op.ok) :
+    opsCbs (Framer.construct user alloc capacity) ops =
+      specCbs (capOf (Framer.construct user alloc capacity)) [] ops :=
+  history_construct user alloc capacity halloc ops hok
 
 /-- What the scan accepts at the front of `buf`, spelled out. -/
 theorem C07_accept_criteria (cap : Nat) (buf : Bytes) (n : Nat) :
@@ -261,5 +296,16 @@ def c07Msg : Bytes :=
 #guard (Framer.construct (some 4097) 0 26).hasBuf == false
 -- a rejected candidate containing 25 duplicated sync bytes before a real message (the defect fixed by 51c058c)
 #guard (onData (Framer.construct none 4096 64) ([0x2E, 0x31] ++ List.replicate 22 1 ++ List.replicate 25 0x2E ++ c07Msg.drop 1)).cbs == [c07Msg]
+
+-- SetBuffer in the middle of a message (20 bytes pending): the pending bytes are discarded, the new capacity applies,
+-- the rest of the old message is skipped and the next message is framed; a refused SetBuffer keeps the message going
+#guard (opsCbs (Framer.construct (some 4096) 0 1024) [.data (c07Msg.take 20), .setBuffer (some 8193) 0 27, .data (c07Msg.drop 20 ++ c07Msg)]) == [c07Msg]
+#guard (runOps (Framer.construct (some 4096) 0 1024) [.data (c07Msg.take 20), .setBuffer (some 8193) 0 27]).cap == 24
+#guard (runOps (Framer.construct (some 4096) 0 1024) [.data (c07Msg.take 20), .setBuffer (some 8193) 0 27]).next == 0
+#guard (opsCbs (Framer.construct (some 4096) 0 1024) [.data (c07Msg.take 20), .setBuffer (some 8193) 0 26, .data (c07Msg.drop 20 ++ c07Msg)]) == [c07Msg, c07Msg]
+#guard (opsCbs (Framer.construct (some 4096) 0 1024) [.data (c07Msg.take 20), .setBuffer none 8192 24, .data (c07Msg.drop 20 ++ c07Msg)]) == [c07Msg]
+-- an object without a buffer gets one later
+#guard (opsCbs (Framer.construct (some 4097) 0 26) [.data c07Msg, .setBuffer none 8192 24, .data c07Msg]) == [c07Msg]
+#guard specCbs (capOf (Framer.construct (some 4096) 0 1024)) [] [.data (c07Msg.take 20), .setBuffer (some 8193) 0 27, .data (c07Msg.drop 20 ++ c07Msg)] == [c07Msg]
 
 end FeVerif
